@@ -243,19 +243,17 @@ func (e *Exec) checkAssert(label string, c *Term) {
 		if e.cfg.IdealHash {
 			e.addHashAxioms()
 		}
-		var r string
-		var vals map[string]string
-		if c.IsFalse() {
-			r, vals = e.sol.CheckModel(nil, e.modelTerms())
-		} else {
-			r, vals = e.sol.CheckModel(Not(c), e.modelTerms())
+		var neg *Term
+		if !c.IsFalse() {
+			neg = Not(c)
 		}
+		r := e.sol.Check(neg)
 		switch r {
 		case "unsat":
 			rec.Result = "proved"
 		case "sat":
 			rec.Result = "violated"
-			rec.Model = vals
+			rec.Cex = e.writeCex(label, e.buildCex(label, neg))
 		default:
 			rec.Result = "unknown"
 			rec.Pos = r
@@ -349,6 +347,16 @@ func (e *Exec) symValue(t types.Type, name string) Value {
 		return &SliceV{A: e.newObj(arr, name), Len: n, Cap: n}
 	case *types.Pointer:
 		return Ptr{O: e.newObj(e.symValue(u.Elem(), name), name)}
+	case *types.Interface:
+		if v, ok := e.ifaceModel(t, name); ok {
+			return v
+		}
+	case *types.Map:
+		return &MapV{M: &MapObj{KT: u.Key(), VT: u.Elem()}}
+	case *types.Signature:
+		if v, ok := e.funcModel(t, name); ok {
+			return v
+		}
 	}
 	e.unsupported("symbolic value of type " + t.String() + " (" + name + ")")
 	return nil
